@@ -32,6 +32,7 @@ type FD struct {
 	Unexp    bool   `json:"unexp,omitempty"`    // unexported field
 	Policy   string `json:"policy,omitempty"`   // replace | append | prepend | merge
 	Validate string `json:"validate,omitempty"` // validate tag
+	Alt      string `json:"alt,omitempty"`      // complete value of a second tag set `alt:"..."` (used with ucfg.StructTag("alt"))
 	T        *TD    `json:"t"`
 }
 
@@ -111,6 +112,9 @@ func (f *FD) TagString() string {
 	tag := fmt.Sprintf(`config:"%s%s"`, f.Tag, opts)
 	if f.Validate != "" {
 		tag += fmt.Sprintf(` validate:"%s"`, f.Validate)
+	}
+	if f.Alt != "" {
+		tag += fmt.Sprintf(` alt:"%s"`, f.Alt)
 	}
 	return tag
 }
